@@ -21,7 +21,7 @@ RULE = ("38 facade methods x every command set whose table offers the command x 
         "inspect.signature of the command class; each supplied argument takes 2 non-default values) x caller buffers of kind bytearray / bytes / memoryview window x 2-3 well-formed device responses chosen to "
         "match the request and 8 truncated ones (a length field announcing more than was transferred: ~500 bytes at offsets 0-1, 0-3, 4-7, 2-3, FFh at 4, FFFEh and 10000h at 0; all bytes FFh); plus every method x set x 13 exception types (incl. KeyboardInterrupt, SystemExit, GeneratorExit) raised by the device *after* it took the command (exactly one submission, the same exception object reaches the caller) (VPD page by page code, mode page by page code, PR IN data by service action, disc information by data type, READ CD "
         "sectors by selection bits); READ/WRITE(10,12,16) through the real SCSIDevice / ISCSIDevice and the stand-in bindings with transfers of {1,2,7Fh,80h,7FFFh,8000h,8001h,40000,FFFFh} blocks of 512 bytes (one submission, whole buffers, iSCSI expected transfer length = buffer length); 11 methods (reads and writes) as the first call after a re-plug, plain or with the re-open failing once (EACCES/EMFILE/EBUSY), on a real SCSIDevice: one submission to the node now at the path; two facades over two devices (different sets, block sizes 512 / 4096) used alternately A.m, B.m', A.m for every pair of methods and offering sets: own device, own operation code, own block size, same CDB for A before and after; the 12 script invocations shipped under tools/ and examples/ (inquiry, getlbastatus, mtx status/load/unload against a simulated changer, read16, read_cd, read_disc_information, readcapacity10/16, reportluns, reportpriority) run as a user runs them on both transports: no exception, CDB lengths, printed values agree with the device. after every successful call: decode the returned command again, submit it again, repeat the call on the same facade (same CDB, one submission each, equal result, fresh buffers). Non-trivial = at least one optional argument supplied or a non-SPC command set; distinct = distinct (method, "
-        "set, argument dict, response). Every method x set over a real device of either transport twice, with all clocks of the time module advanced by {0,1,299,301,3600,10^7} s in between: one command each, same CDB, the attached set's operation code. Every method x set x transport called 260 times in a row (thorough: 1100; 66000 for six methods): every call one command, CDB and result of the first call. Every method x set through a facade subclass that overrides execute() (delegating, returning nothing): same outcome as the plain facade, override entered once. Second attach to the SAME device object after the node was re-plugged with a unit of another type (SG_IO) or after the caller changed dev.opcodes (both transports) x 20 ordered pairs of sets x every method either offers: one INQUIRY, then the opcode of the set of the device now there (or refusal with nothing sent).")
+        "set, argument dict, response). Every method x set over a real device of either transport twice, with all clocks of the time module advanced by {0,1,299,301,3600,10^7} s in between: one command each, same CDB, the attached set's operation code. Every method x set x transport called 260 times in a row (thorough: 1100; 66000 for six methods): every call one command, CDB and result of the first call. Every method x set through a facade subclass that overrides execute() (delegating, returning nothing): same outcome as the plain facade, override entered once. Every method x set over caller-made device objects whose truth value is False (__bool__, __len__): probed on attach, one command with the selected set's opcode. Second attach to the SAME device object after the node was re-plugged with a unit of another type (SG_IO) or after the caller changed dev.opcodes (both transports) x 20 ordered pairs of sets x every method either offers: one INQUIRY, then the opcode of the set of the device now there (or refusal with nothing sent).")
 ASSUMPTIONS = [
     "the recording device is a plain object with opcodes/execute/close: it notes call count, a copy of the CDB, id() of both buffers and whether cmd.result was already populated, then fills data-in in place",
     "decode *correctness* is C04's subject: here cmd.result must equal the decoder applied separately to a copy of what the device wrote (same keyword arguments), (the evidence counts the cases where that differs from the decode of an untouched zero buffer, i.e. where decoding before executing would be caught)",
@@ -493,6 +493,46 @@ def run_subclass_facade(case, obs=None):
     return out
 
 
+def run_falsy_device(case, obs=None):
+    """a caller-made device object whose truth value is False (an empty recording list, __bool__ = 'medium loaded', __len__ =
+    outstanding commands): attaching probes it like any device, and the method that follows hands it exactly one command carrying the
+    operation code of the set selected for the type it reported"""
+    import pyscsi.pyscsi.scsi_enum_command as E
+    from pyscsi.pyscsi.scsi import SCSI
+    _, method, st, kind = case
+
+    class NoMedium(RecDev):
+        def __bool__(self):
+            return False
+
+    class Idle(RecDev):
+        def __len__(self):
+            return 0
+    dev = {"bool_false": NoMedium, "len_zero": Idle}[kind](E.spc)
+    dtype = F.SET_TO_TYPE[st]
+    dev.response = R.std_inquiry({"peripheral_device_type": dtype, "version": 6}, {"t10_vendor_identification": b"VERIFVND",
+                                                                                   "product_identification": b"PRODUCT-ID-16-BY", "product_revision_level": b"R001"})
+    s = SCSI(dev, 512)
+    out = []
+    where = "%s on a caller-made %s device whose truth value is False (%s)" % (method, st, kind)
+    if len(dev.calls) != 1 or dev.calls[0]["cdb"][0] != 0x12:
+        out.append(("falsy_device/attach", "%s: attaching sent %r, expected exactly one standard INQUIRY" % (where, [c["cdb"].hex() for c in dev.calls])))
+    del dev.calls[:]
+    dev.response = response_for(method, dict(F.FACADE[method][2]), 0)
+    key = F.FACADE[method][1]
+    lookup = "%s_OPCODE_%s" % (st.upper(), key) if key in ("9E", "A3") else key
+    try:
+        F.call(s, method)
+        oc = "returned"
+    except Exception as e:   # noqa: BLE001
+        oc = "raised %s: %s" % (type(e).__name__, e)
+    if oc != "returned" or len(dev.calls) != 1 or dev.calls[0]["cdb"][0] != T.t10_value(st, lookup):
+        out.append(("falsy_device/call/%s" % method, "%s: %s, the device saw %r; the %s set assigns %#04x" % (where, oc, [c["cdb"].hex() for c in dev.calls], st, T.t10_value(st, lookup))))
+    if obs is not None:
+        obs.append((oc[:10], len(dev.calls)))
+    return out
+
+
 def run_reattach(case, obs=None):
     """a facade is attached to the SAME device object a second time after the device behind it changed (SG_IO: the node was re-plugged
     with a unit of another type; any device object: the caller changed dev.opcodes): the second attach probes again - exactly one
@@ -671,6 +711,8 @@ def run_case(case, obs=None):
         return run_reattach(case, obs)
     if case[0] == "subclass_facade":
         return run_subclass_facade(case, obs)
+    if case[0] == "falsy_device":
+        return run_falsy_device(case, obs)
     if case[0] == "tools":
         from vf.props import c13_tools
         return c13_tools.run_tool(*c13_tools.SCRIPTS[case[1]], case[2])[0]
@@ -854,7 +896,7 @@ def partitions(tier):
     return ([[m] for m in F.FACADE] + [["transport", tr, m] for tr in ("sgio", "iscsi") for m in ("read10", "read12", "read16", "write10", "write12", "write16")]
             + [["recovery"]] + [["two", m] for m in F.FACADE] + [["tools"]] + [["idle", tr] for tr in ("sgio", "iscsi")]
             + [["repeat", tr, m] for tr in ("sgio", "iscsi") for m in F.FACADE]
-            + [["reattach", how] for how in ("replug", "sgio", "iscsi")] + [["subclass_facade"]])
+            + [["reattach", how] for how in ("replug", "sgio", "iscsi")] + [["subclass_facade"], ["falsy_device"]])
 
 
 def run_partition(part, tier, seed):
@@ -892,6 +934,26 @@ def run_partition(part, tier, seed):
                     for k, w in v:
                         acc.violation(k, w, case)
                     acc.outcome((repr(case), tuple(obs), tuple(k for k, _ in v)))
+        return acc
+    if part[0] == "falsy_device":
+        for m in F.FACADE:
+            for st in F.sets_offering(m):
+                if st == "spc" and m not in ("inquiry", "testunitready", "reportluns"):
+                    pass
+                for kind in ("bool_false", "len_zero"):
+                    case = ["falsy_device", m, st, kind]
+                    acc.case(case, nontrivial=True, key=repr(case))
+                    obs = []
+                    try:
+                        v = run_case(case, obs)
+                    except Exception:
+                        import traceback
+                        v = [("harness_error", traceback.format_exc()[-600:])]
+                    for k, w in v:
+                        acc.violation(k, w, case)
+                    acc.outcome((repr(case), tuple(obs), tuple(k for k, _ in v)))
+                    acc.transitions += 2
+                    acc.traces += 1
         return acc
     if part[0] == "subclass_facade":
         for m in F.FACADE:
